@@ -44,6 +44,9 @@ Cases ==
   \cup [g : {"chain"}, n : {2}, v1 : {1, 3, 4, 5}, v2 : {1, 3, 4, 5}, v3 : {1}, els : {TRUE}, emp : {1, 2, 4}]
   \cup [g : {"case"}, s : 1..Len(SU), w1 : 1..Len(WhenLists), w2 : 1..Len(WhenLists), els : {TRUE}, emp : {1, 2, 4}]
   \cup [g : {"dual"}, v1 : 1..NCU]
+  \* the same compiled conditional evaluated again and again with other values: inside a loop, the subject, the
+  \* conditions and the when-values all depend on the loop variable
+  \cup [g : {"loop"}, kind : {"case-when-var", "case-subject-var", "if-var", "unless-var", "case-when-prop"}, lo : 0..2, x : 0..3]
   \cup [g : {"later"}, pos : 1..3, sel : 0..3]         \* failing condition at pos; first truthy at sel (0: none)
   \cup [g : {"case"}, s : 1..Len(SU), w1 : 1..Len(WhenLists), w2 : 1..Len(WhenLists), els : BOOLEAN]
   \cup [g : {"nest"}, v1 : 1..NCU, v2 : 1..NCU]
@@ -67,6 +70,24 @@ ProgOf(x) ==
              whens |-> << [vals |-> [i \in 1..Len(WhenLists[x.w1]) |-> Lit(SU[WhenLists[x.w1][i]])], body |-> MarkE(x, 1)],
                           [vals |-> [i \in 1..Len(WhenLists[x.w2]) |-> Lit(SU[WhenLists[x.w2][i]])], body |-> MarkE(x, 2)] >>
                           \o (IF x.els THEN <<[else |-> TRUE, vals |-> <<>>, body |-> MarkE(x, 4)]>> ELSE <<>>)] >>
+    [] x.g = "loop" ->
+         LET I == <<105>>
+             XV == <<120>>
+             inner ==
+               CASE x.kind = "case-when-var" ->       \* case x / when i -> A / else -> B
+                      [t |-> "case", e |-> Var(XV), pre |-> <<>>, whens |-> <<[vals |-> <<Var(I)>>, body |-> Mark(1)], [else |-> TRUE, vals |-> <<>>, body |-> Mark(2)]>>]
+                 [] x.kind = "case-subject-var" ->    \* case i / when x, 9 -> A / when 1 -> C / else -> B
+                      [t |-> "case", e |-> Var(I), pre |-> <<>>, whens |-> <<[vals |-> <<Var(XV), Lit(IntV(9))>>, body |-> Mark(1)],
+                                                                             [vals |-> <<Lit(IntV(1))>>, body |-> Mark(3)],
+                                                                             [else |-> TRUE, vals |-> <<>>, body |-> Mark(2)]>>]
+                 [] x.kind = "case-when-prop" ->      \* case x / when forloop.index0 -> A / else -> B
+                      [t |-> "case", e |-> Var(XV), pre |-> <<>>, whens |-> <<[vals |-> <<[t |-> "prop", e |-> Var(B_forloop), name |-> B_index0]>>, body |-> Mark(1)],
+                                                                              [else |-> TRUE, vals |-> <<>>, body |-> Mark(2)]>>]
+                 [] x.kind = "if-var" ->
+                      [t |-> "if", branches |-> <<[c |-> [t |-> "cmp", op |-> "==", a |-> Var(I), b |-> Var(XV)], body |-> Mark(1)], [c |-> ElseC, body |-> Mark(2)]>>]
+                 [] x.kind = "unless-var" ->
+                      [t |-> "if", neg |-> TRUE, branches |-> <<[c |-> [t |-> "cmp", op |-> "==", a |-> Var(I), b |-> Var(XV)], body |-> Mark(1)], [c |-> ElseC, body |-> Mark(2)]>>]
+         IN  << [t |-> "for", tag |-> "for", var |-> I, coll |-> [t |-> "range", a |-> Lit(IntV(x.lo)), b |-> Lit(IntV(x.lo + 2))], body |-> <<inner>>] >>
     [] x.g = "tail" ->
          LET innerNode ==
                CASE x.inner = "if" -> [t |-> "if", branches |-> <<[c |-> Var(CN(2)), body |-> Mark(3)]>>]
@@ -89,6 +110,7 @@ EnvOf2(x) ==
   CASE x.g = "chain" -> << <<CN(1), CU[x.v1]>>, <<CN(2), CU[x.v2]>>, <<CN(3), CU[x.v3]>> >>
     [] x.g = "dual" -> << <<CN(1), CU[x.v1]>> >>
     [] x.g = "later" -> <<>>
+    [] x.g = "loop" -> << <<<<120>>, IntV(x.x)>> >>
     [] x.g = "case" -> << <<<<115>>, SU[x.s]>> >>
     [] x.g \in {"nest", "tail"} -> << <<CN(1), CU[x.v1]>>, <<CN(2), CU[x.v2]>> >>
 
@@ -113,6 +135,13 @@ Decl(x) ==   \* [status, out]
     [] x.g = "case" ->
          [status |-> "ok", out |-> IF WMatch(x.w1, x.s) THEN ME(x, 1) ELSE IF WMatch(x.w2, x.s) THEN ME(x, 2)
                                    ELSE IF x.els THEN ME(x, 4) ELSE <<>>]
+    [] x.g = "loop" ->
+         LET hit(i) == CASE x.kind = "case-when-prop" -> x.x = i - x.lo       \* forloop.index0
+                         [] OTHER -> i = x.x
+             one(i) == CASE x.kind = "unless-var" -> IF hit(i) THEN M(2) ELSE M(1)
+                         [] x.kind = "case-subject-var" -> IF hit(i) \/ i = 9 THEN M(1) ELSE IF i = 1 THEN M(3) ELSE M(2)
+                         [] OTHER -> IF hit(i) THEN M(1) ELSE M(2)
+         IN  [status |-> "ok", out |-> one(x.lo) \o one(x.lo + 1) \o one(x.lo + 2)]
     [] x.g = "tail" ->
          LET first == IF x.outer = "if" THEN Tr(x.v1) ELSE x.v1 = 3           \* case: subject == true
              innerOut == CASE x.inner = "if" -> IF Tr(x.v2) THEN M(3) ELSE <<>>
@@ -144,6 +173,7 @@ IdOf(x) ==
     [] x.g = "dual" -> "dual-" \o ToString(x.v1)
     [] x.g = "later" -> "later-" \o ToString(x.pos) \o "-" \o ToString(x.sel)
     [] x.g = "case" -> "case-" \o ToString(x.s) \o "-" \o ToString(x.w1) \o "-" \o ToString(x.w2) \o "-" \o ToString(x.els) \o "-e" \o ToString(Emp(x))
+    [] x.g = "loop" -> "loop-" \o x.kind \o "-" \o ToString(x.lo) \o "-" \o ToString(x.x)
     [] x.g = "tail" -> "tail-" \o ToString(x.v1) \o "-" \o ToString(x.v2) \o "-" \o x.inner \o "-" \o x.outer
     [] x.g = "nest" -> "nest-" \o ToString(x.v1) \o "-" \o ToString(x.v2)
 EmitCase == st.status # "run" =>
